@@ -133,6 +133,24 @@ func MockCatalogue() []*Request {
 		add(mockReq(id, nil, []*Message{req, M("Leaf", F("note", 1, "string")),
 			M("Expr", F("title", 1, "string"), F("neg", 2, "", Msg(q(id, "Expr")), InOneof("e")), F("leaf", 3, "", Msg(q(id, "Leaf")), InOneof("e"))).WithOneofs(&Oneof{Name: "e"})}, svc(id, "Expr")))
 	}
+	{ // examples at every position the mock fills: map-value message only, two levels deep, direct field AND map value
+		id := "mexmapval"
+		add(mockReq(id, nil, []*Message{req,
+			M("Money", F("currency", 1, "string", Examples("EUR", "USD")), F("units", 2, "int64", Examples("5", "10"))),
+			M("Invoice", F("title", 1, "string"), F("totals", 2, "", Msg(q(id, "Money")), MapOf("string")))}, svc(id, "Invoice")))
+		id = "mexdeep"
+		add(mockReq(id, nil, []*Message{req,
+			M("L2", F("code", 1, "string", Examples("c1", "c2")), F("ok", 2, "bool", Examples("false"))),
+			M("L1", F("l2", 1, "", Msg(q(id, "L2"))), F("label", 2, "string", Examples("one"))),
+			M("Mid", F("by", 1, "", Msg(q(id, "L1")), MapOf("int32"))),
+			M("Resp", F("l1", 1, "", Msg(q(id, "L1"))), F("mid", 2, "", Msg(q(id, "Mid"))), F("ratio", 3, "double", Examples("0.5", "2")))}, svc(id, "Resp", "Mid")))
+		id = "mexboth" // the same message as a direct field and as a map value, in two RPCs
+		add(mockReq(id, nil, []*Message{req,
+			M("Tag", F("name", 1, "string", Examples("red", "green", "blue")), F("weight", 2, "double", Examples("1.5"))),
+			M("Direct", F("tag", 1, "", Msg(q(id, "Tag"))), F("tags", 2, "", Msg(q(id, "Tag")), MapOf("string"))),
+			M("OnlyMap", F("tags", 1, "", Msg(q(id, "Tag")), MapOf("bool")), F("n", 2, "int64", Examples("3"))),
+			M("OnlyOptional", F("tag", 1, "", Msg(q(id, "Tag")), Opt()))}, svc(id, "Direct", "OnlyMap", "OnlyOptional")))
+	}
 	return out
 }
 
